@@ -24,6 +24,8 @@ type mut struct {
 	Func  string `json:"func"`
 }
 
+var wave2 = os.Getenv("MUTGEN_WAVE") == "2"
+
 func main() {
 	root, out := os.Args[1], os.Args[2]
 	os.MkdirAll(out, 0o755)
@@ -46,6 +48,12 @@ func main() {
 				continue
 			}
 			fn := fd.Name.Name
+			retErr := false
+			if fd.Type.Results != nil && len(fd.Type.Results.List) > 0 {
+				if id, ok := fd.Type.Results.List[len(fd.Type.Results.List)-1].Type.(*ast.Ident); ok && id.Name == "error" {
+					retErr = true
+				}
+			}
 			add := func(start, end token.Pos, repl, op string) {
 				s, e := off(start), off(end)
 				ms = append(ms, mut{rel, s, e, string(src[s:e]), repl, op, fset.Position(start).Line, fn})
@@ -53,6 +61,9 @@ func main() {
 			ast.Inspect(fd.Body, func(n ast.Node) bool {
 				switch x := n.(type) {
 				case *ast.BinaryExpr:
+					if wave2 {
+						return true
+					}
 					var alts []string
 					switch x.Op {
 					case token.LSS:
@@ -91,12 +102,12 @@ func main() {
 						add(x.Pos(), x.End(), string(src[off(x.Y.Pos()):off(x.Y.End())]), "keep-right")
 					}
 				case *ast.UnaryExpr:
-					if x.Op == token.NOT {
+					if !wave2 && x.Op == token.NOT {
 						add(x.Pos(), x.X.Pos(), "", "drop-not")
 					}
 				case *ast.IfStmt:
 					// delete a guard: an if without else whose body leaves the function / loop
-					if x.Else == nil && len(x.Body.List) > 0 {
+					if !wave2 && x.Else == nil && len(x.Body.List) > 0 {
 						switch x.Body.List[len(x.Body.List)-1].(type) {
 						case *ast.ReturnStmt, *ast.BranchStmt:
 							if x.Init == nil {
@@ -107,8 +118,29 @@ func main() {
 							}
 						}
 					}
+				case *ast.ExprStmt:
+					if wave2 {
+						if _, ok := x.X.(*ast.CallExpr); ok {
+							add(x.Pos(), x.End(), "", "delete-call")
+						}
+					}
+				case *ast.AssignStmt:
+					if wave2 && x.Tok != token.DEFINE {
+						add(x.Pos(), x.End(), "", "delete-assign")
+					}
+				case *ast.IncDecStmt:
+					if wave2 {
+						add(x.Pos(), x.End(), "", "delete-incdec")
+					}
+				case *ast.ReturnStmt:
+					if wave2 && retErr && len(x.Results) >= 1 {
+						last := x.Results[len(x.Results)-1]
+						if id, ok := last.(*ast.Ident); !ok || id.Name != "nil" {
+							add(last.Pos(), last.End(), "nil", "return-nil-error")
+						}
+					}
 				case *ast.BranchStmt:
-					if x.Label == nil {
+					if !wave2 && x.Label == nil {
 						switch x.Tok {
 						case token.BREAK:
 							add(x.Pos(), x.End(), "continue", "break->continue")
@@ -117,7 +149,11 @@ func main() {
 						}
 					}
 				case *ast.BasicLit:
-					if x.Kind == token.INT && (x.Value == "0" || x.Value == "1") {
+					if wave2 && x.Kind == token.INT && x.Value != "0" && x.Value != "1" && !strings.HasPrefix(x.Value, "0x") {
+						add(x.Pos(), x.End(), "("+x.Value+" + 1)", "int+1")
+						add(x.Pos(), x.End(), "("+x.Value+" - 1)", "int-1")
+					}
+					if !wave2 && x.Kind == token.INT && (x.Value == "0" || x.Value == "1") {
 						r := "1"
 						if x.Value == "1" {
 							r = "0"
@@ -125,7 +161,7 @@ func main() {
 						add(x.Pos(), x.End(), r, "int:"+x.Value+"->"+r)
 					}
 				case *ast.Ident:
-					if x.Name == "true" || x.Name == "false" {
+					if !wave2 && (x.Name == "true" || x.Name == "false") {
 						r := "false"
 						if x.Name == "false" {
 							r = "true"
